@@ -169,6 +169,9 @@ func genC14Loop(r *Rng, env *Env) *C14Loop {
 			if n.K == "text" || n.K == "raw" || n.K == "comment" {
 				n.S = strings.NewReplacer("{", "(", "}", ")", "%", "#").Replace(n.S)
 			}
+			if n.K == "obj" && (strings.HasPrefix(n.S, "-") || strings.HasSuffix(n.S, "-")) {
+				n.Sp = 0 // "{{-1}}" would be a trim marker and a 1
+			}
 			clean(n.C)
 			for _, cl := range n.Cl {
 				clean(cl.C)
@@ -276,6 +279,9 @@ func genC14(seed uint64, r *Rng, idx, vecs int) *C14Case {
 	}
 	rels := []string{"a.html", `b\nav.html`, "d2/c.html", "../up.html", "d4/e.html", `f\tab.html`} // two names contain a backslash (legal in file names; string literals have no escapes)
 	gr2 := gr.Fork(2)
+	if gr.Fork(3).Chance(0.15) {
+		rels[0] = "p{{v}}.html" // a name that contains an object: a name is a name, nothing in it is evaluated
+	}
 	for i := 0; i < n; i++ {
 		cs.Files = append(cs.Files, &C14File{Rel: rels[i]})
 	}
